@@ -1,4 +1,5 @@
 import ArimModel.Config
+import ArimProofs.Lemmas.Config
 /-! # C20 — configuration merging and file loading are deterministic and lossless -/
 namespace Arim.C20
 open Arim.Config
@@ -20,5 +21,129 @@ theorem load_listing_order_counter :
     simp [loadConfListingOrder, merge, combine, mergeKVs, upsert]
   rw [h1, h2]
   simp
+
+/-! ## Loading is independent of the enumeration order of the file system -/
+
+/-- `load_conf` gives the same configuration whatever the order in which the file system lists
+the fragments, provided file names are distinct (they are: one directory). -/
+theorem load_order_independent (base : Cfg) (l₁ l₂ : List (String × Cfg)) (hp : l₁.Perm l₂)
+    (hnd : (l₁.map (·.1)).Nodup) : loadConf base l₁ = loadConf base l₂ := by
+  unfold loadConf
+  rw [sortByName_eq_of_perm hp hnd]
+
+/-- the sorted listing is a permutation of the listing, ordered by file name: no fragment is
+dropped or duplicated by `load_conf` -/
+theorem sort_is_sorted_perm (l : List (String × Cfg)) :
+    (sortByName l).Perm l ∧ (sortByName l).Pairwise (fun a b => a.1 ≤ b.1) :=
+  ⟨sortByName_perm l, sortByName_sorted l⟩
+
+/-! ## Key-by-key laws of `recursive_dict_merge` -/
+
+/-- a key set by `top` ends up holding `top`'s value, recursively combined with the old value
+if there was one (the keys of `top` are distinct; nothing is assumed about `b`) -/
+theorem merge_later_wins (b t : KVs) (ht : (t.map (·.1)).Nodup) (k : String) (v : Cfg)
+    (h : get? (.node t) k = some v) :
+    get? (merge (.node b) (.node t)) k
+      = some (match get? (.node b) k with | some old => combine old v | none => v) := by
+  simp only [merge, combine_node_node, get?_node] at h ⊢
+  exact lookup_mergeKVs_of_some ht h b
+
+/-- a scalar set by `top` replaces whatever `base` had under that key -/
+theorem merge_leaf_wins (b t : KVs) (ht : (t.map (·.1)).Nodup) (k s : String)
+    (h : get? (.node t) k = some (.leaf s)) :
+    get? (merge (.node b) (.node t)) k = some (.leaf s) := by
+  rw [merge_later_wins b t ht k _ h]
+  cases get? (.node b) k <;> simp
+
+/-- keys not mentioned by `top` keep their value (no hypothesis on key distinctness) -/
+theorem merge_keeps_untouched (b t : KVs) (k : String) (h : get? (.node t) k = none) :
+    get? (merge (.node b) (.node t)) k = get? (.node b) k := by
+  simp only [merge, combine_node_node, get?_node] at h ⊢
+  exact lookup_mergeKVs_of_none h b
+
+/-- mappings present on both sides are merged, not replaced -/
+theorem merge_nested (b t : KVs) (ht : (t.map (·.1)).Nodup) (k : String) (bb tt : KVs)
+    (hb : get? (.node b) k = some (.node bb)) (h : get? (.node t) k = some (.node tt)) :
+    get? (merge (.node b) (.node t)) k = some (.node (mergeKVs bb tt)) := by
+  rw [merge_later_wins b t ht k _ h, hb]
+  simp
+
+/-- the merged mapping has exactly the keys of both sides (no hypothesis on distinctness) -/
+theorem merge_keys (b t : KVs) (k : String) :
+    k ∈ keys (merge (.node b) (.node t)) ↔ k ∈ keys (.node b) ∨ k ∈ keys (.node t) := by
+  simp only [merge, combine_node_node, keys_node]
+  exact mem_keys_mergeKVs b t k
+
+/-- the keys of `base` keep their positions and the new keys of `top` are appended in order:
+merging never reorders `base` -/
+theorem merge_keys_prefix (b t : KVs) :
+    ∃ extra, keys (merge (.node b) (.node t)) = keys (.node b) ++ extra := by
+  simp only [merge, combine_node_node, keys_node]
+  induction t generalizing b with
+  | nil => exact ⟨[], by simp [mergeKVs_nil]⟩
+  | cons p rest ih =>
+    obtain ⟨k, v⟩ := p
+    rw [mergeKVs_cons]
+    obtain ⟨e, he⟩ := ih (upsert k (fun old => combine old v) v b)
+    rw [he, keys_upsert]
+    split
+    · exact ⟨e, rfl⟩
+    · exact ⟨k :: e, by simp⟩
+
+/-! ## Well-formedness and idempotence -/
+
+/-- merging two well-formed trees (distinct keys at every level) gives a well-formed tree -/
+theorem merge_wf (b t : Cfg) (hb : WF b) (ht : WF t) : WF (merge b t) :=
+  combine_mergeKVs_wf.1 t ht b hb
+
+/-- applying the same well-formed fragment twice is the same as applying it once; `b` is
+arbitrary (it need not be well formed, nor a mapping) -/
+theorem merge_idempotent (b t : Cfg) (ht : WF t) : merge (merge b t) t = merge b t :=
+  combine_idem_aux.1 t ht b
+
+/-- a well-formed tree merged into itself is unchanged -/
+theorem merge_self (t : Cfg) (ht : WF t) : merge t t = t := by
+  have := merge_idempotent (.leaf "") t ht
+  simpa [merge] using this
+
+/-- `load_conf` of well-formed fragments over a well-formed base is well formed -/
+theorem load_wf (base : Cfg) (l : List (String × Cfg)) (hb : WF base)
+    (hl : ∀ f ∈ l, WF f.2) : WF (loadConf base l) := by
+  unfold loadConf
+  have hl' : ∀ f ∈ sortByName l, WF f.2 := fun f hf => hl f ((sortByName_perm l).subset hf)
+  generalize sortByName l = s at hl'
+  induction s generalizing base with
+  | nil => exact hb
+  | cons f fs ih =>
+    simp only [List.foldl_cons]
+    exact ih _ (merge_wf _ _ hb (hl' f List.mem_cons_self))
+      (fun g hg => hl' g (List.mem_cons_of_mem _ hg))
+
+/-! ## Non-vacuity: the hypotheses are satisfiable and the laws say something on real trees -/
+
+example :
+    merge (.node [("a", .leaf "1"), ("sub", .node [("x", .leaf "p"), ("y", .leaf "q")])])
+          (.node [("sub", .node [("y", .leaf "r"), ("z", .leaf "s")]), ("b", .leaf "2")])
+      = .node [("a", .leaf "1"),
+               ("sub", .node [("x", .leaf "p"), ("y", .leaf "r"), ("z", .leaf "s")]),
+               ("b", .leaf "2")] := by
+  simp [merge, combine, mergeKVs, upsert]
+
+example : WF (.node [("sub", .node [("y", .leaf "r"), ("z", .leaf "s")]), ("b", .leaf "2")]) := by
+  simp [wf_node_iff]
+
+/-- `WF` is needed for idempotence: a fragment holding a "mapping" with a repeated key (not a
+Python dict) that replaces a scalar is not absorbed by a second application -/
+example :
+    let b : Cfg := .node [("k", .leaf "0")]
+    let t : Cfg := .node [("k", .node [("j", .leaf "1"), ("j", .leaf "2")])]
+    merge (merge b t) t ≠ merge b t := by
+  simp [merge, combine, mergeKVs, upsert]
+
+/-- two listings of the same two fragments load to the same configuration -/
+example :
+    loadConf (.node []) [("10_a", .node [("a", .leaf "1")]), ("05_z", .node [("a", .leaf "2")])]
+      = loadConf (.node []) [("05_z", .node [("a", .leaf "2")]), ("10_a", .node [("a", .leaf "1")])] :=
+  load_order_independent _ _ _ (List.Perm.swap _ _ _) (by simp)
 
 end Arim.C20
